@@ -123,6 +123,8 @@ struct Handle {
     inst: u32,
     cursor: usize,
     cursor_known: bool,
+    /// write position of an OUTPUT handle
+    wpos: usize,
     rec_len: usize,
     field_lists: Vec<Vec<(usize, String)>>,
     current_fields: Option<usize>,
@@ -1638,10 +1640,29 @@ impl<'a> Model<'a> {
         }
     }
 
+    /// Bytes written through a handle: an APPEND handle always writes at the end of the
+    /// file, an OUTPUT handle at its own position (several handles may have the file open).
     fn append_to_file(&mut self, inst: u32, bytes: &[u8]) {
-        if let Some(h) = self.handles.values().find(|h| h.inst == inst) {
+        if bytes.is_empty() {
+            return;
+        }
+        if let Some(h) = self.handles.values_mut().find(|h| h.inst == inst) {
             let name = h.name.clone();
-            self.store.entry(name).or_default().extend_from_slice(bytes);
+            let data = self.store.entry(name).or_default();
+            let pos = if h.mode == Mode::Append {
+                data.len()
+            } else {
+                h.wpos
+            };
+            if pos > data.len() {
+                data.resize(pos, 0);
+            }
+            let end = pos + bytes.len();
+            if end > data.len() {
+                data.resize(end, 0);
+            }
+            data[pos..end].copy_from_slice(bytes);
+            h.wpos = end;
         }
     }
 
@@ -2126,14 +2147,22 @@ impl<'a> Model<'a> {
             self.probe("open_refused_by_fault");
             return r;
         }
-        if self
-            .handles
-            .values()
-            .any(|h| h.name == name && (h.mode != Mode::Input || mode != Mode::Input))
-        {
+        // the same file on several handles: defined for readers among themselves and for
+        // sequential writers (OUTPUT / APPEND) among themselves; a reader next to a writer
+        // sees whatever its read-ahead buffer happened to hold
+        let is_writer = |m: Mode| m == Mode::Output || m == Mode::Append;
+        if self.handles.values().any(|h| {
+            h.name == name
+                && !((h.mode == Mode::Input && mode == Mode::Input)
+                    || (is_writer(h.mode) && is_writer(mode)))
+        }) {
             return Err(Stop::Early(
-                "OPEN of a file that is already open on another handle".into(),
+                "OPEN of a file that is already open on another handle in an incompatible mode"
+                    .into(),
             ));
+        }
+        if self.handles.values().any(|h| h.name == name && is_writer(h.mode)) && is_writer(mode) {
+            self.probe("same_file_open_on_two_writing_handles");
         }
         let is_dir = self.dirs.iter().any(|d| d == name);
         let exists = self.store.contains_key(name);
@@ -2208,6 +2237,7 @@ impl<'a> Model<'a> {
                 inst,
                 cursor: 0,
                 cursor_known: true,
+                wpos: 0,
                 rec_len: len.unwrap_or(0).max(0) as usize,
                 field_lists: vec![],
                 current_fields: None,
